@@ -5,9 +5,8 @@
 //
 // Included units: `gate` (Melda mirror, DeltaMap + keyed shims, check_delta / mark_valid_deltas — RE-VERIFIED from the real
 // code in this file) which includes `pack` (DataStorage, all of its functions re-verified).
-// Proved FROM THE REAL CODE here: Melda::refresh, Melda::reload, DataStorage::list_raw_items, and — again, with the extra
-// frame clause `cache unchanged` that unit `pack` does not state and `refresh` needs (the gate's precondition `cache_inv`
-// must survive the storage refresh) — DataStorage::{parse_and_apply_pack, refresh, reload} as `*_c`.
+// Proved FROM THE REAL CODE here: Melda::refresh, Melda::reload, DataStorage::list_raw_items.
+// (unit `pack` states the frame `cache unchanged` for DataStorage::{refresh, reload}: the gate's precondition `cache_inv` survives them.)
 //
 // ASSUMED HERE (the callee lives in a unit that cannot be included: `block`, `delta`, `apply`, `tree` are built on unit
 // `rev`'s concrete `Revision`, unit `pack` on an opaque `Revision` — the preambles collide).  For each link the assumed
